@@ -1,0 +1,25 @@
+//go:build verif
+
+package ship
+
+import "time"
+
+// Timer hooks for the verification harness in /verif (build tag "verif"). Add-only:
+// nothing here is compiled into a normal build. Thin wrappers of the unexported
+// handshake timer entry points.
+
+// VerifArmTimer arms the handshake timer with the given duration, exactly as the
+// handshake handlers do (an already running timer is stopped and replaced).
+func (c *ShipConnection) VerifArmTimer(d time.Duration) {
+	c.setHandshakeTimer(timeoutTimerTypeWaitForReady, d)
+}
+
+// VerifStopTimer stops the handshake timer, exactly as the handshake handlers do.
+func (c *ShipConnection) VerifStopTimer() {
+	c.stopHandshakeTimer()
+}
+
+// VerifTimerRunning reports the timer's running flag.
+func (c *ShipConnection) VerifTimerRunning() bool {
+	return c.getHandshakeTimerRunning()
+}
